@@ -42,7 +42,12 @@ class KeywordSearches:
         """
         invert: bool = terms.inverted
         keyword: PathSearchKeywords = terms.keyword
-        parameters: List[str] = terms.parameters
+        try:
+            parameters: List[str] = terms.parameters
+        except ValueError as wrap_ex:
+            raise YAMLPathException(
+                "Invalid Search Keyword parameters ({}) in YAML Path"
+                .format(wrap_ex), str(yaml_path)) from wrap_ex
         nc_matches: Generator[NodeCoords, None, None]
 
         if keyword is PathSearchKeywords.DISTINCT:
